@@ -46,39 +46,55 @@ def run_kani_unit(u, repo, bdir, tier):
                 f.write(text)
             splice_lines[sp["file"]] = n0
         crate_dir = os.path.join(sc, u.get("crate_dir", "."))
-        jobs = int(u.get("jobs", 16))
-        waves = (len(hs) + jobs - 1) // jobs
-        budget = waves * max(h.get("budget_s", 300) for h in hs) + 240
-        cmd = ["cargo", "kani", "--target-dir", os.path.join(BUILD, "kani-target"), "-Z", "stubbing", "-Z", "unstable-options",
-               "-j", str(min(len(hs), int(u.get("jobs", os.environ.get("VERIF_KANI_JOBS", "16"))))), "--output-format", "terse",
-               "--harness-timeout", f"{max(h.get('budget_s', 300) for h in hs)}s"]
-        for a in u.get("cargo_args", []):
-            cmd.append(a)
-        for h in hs:
-            cmd += ["--harness", h["name"]]
-        res["checker_cmd"] = "CARGO_NET_OFFLINE=true " + " ".join(cmd)
+        jobs = int(u.get("jobs", os.environ.get("VERIF_KANI_JOBS", "16")))
+        per_h = max(h.get("budget_s", 300) for h in hs)
+        # large families are run in chunks: a killed kani-driver (memory) then costs one chunk, not the whole family
+        chunk = int(u.get("chunk", 0)) or len(hs)
         env = dict(os.environ, CARGO_NET_OFFLINE="true")
-        try:
-            p = subprocess.run(cmd, cwd=crate_dir, env=env, capture_output=True, text=True, timeout=budget)
-        except subprocess.TimeoutExpired:
-            subprocess.run(["pkill", "-f", sc], capture_output=True)
-            res["reason"] = f"kani wall budget ({budget}s) exceeded"
-            return res
-        out = p.stdout + "\n" + p.stderr
+        out = ""
+        total_reported = 0
+        lost_chunks = []
+        for c0 in range(0, len(hs), chunk):
+            part = hs[c0:c0 + chunk]
+            waves = (len(part) + jobs - 1) // jobs
+            budget = waves * per_h + 240
+            cmd = ["cargo", "kani", "--target-dir", os.path.join(BUILD, "kani-target"), "-Z", "stubbing", "-Z", "unstable-options",
+                   "-j", str(min(len(part), jobs)), "--output-format", "terse", "--harness-timeout", f"{per_h}s"]
+            for a in u.get("cargo_args", []):
+                cmd.append(a)
+            for h in part:
+                cmd += ["--harness", h["name"]]
+            if c0 == 0:
+                res["checker_cmd"] = "CARGO_NET_OFFLINE=true " + " ".join(cmd[:cmd.index("--harness")] if len(hs) > 40 else cmd) + (f" --harness <{len(hs)} harnesses in chunks of {chunk}>" if len(hs) > 40 else "")
+            try:
+                p = subprocess.run(cmd, cwd=crate_dir, env=env, capture_output=True, text=True, timeout=budget)
+                o = p.stdout + "\n" + p.stderr
+            except subprocess.TimeoutExpired:
+                subprocess.run(["pkill", "-f", sc], capture_output=True)
+                o = f"chunk {c0}: kani wall budget ({budget}s) exceeded\n"
+            if "error: could not compile" in o or "error[E" in o:
+                open(os.path.join(bdir, uid + ".kani.out"), "w").write(out + o)
+                errs = [l for l in o.split("\n") if l.startswith("error")][:3]
+                res["reason"] = "the harness does not compile against the working tree (lost anchor / changed signature): " + " | ".join(errs)
+                return res
+            m = re.search(r"Complete - (\d+) successfully verified harnesses, (\d+) failures, (\d+) total", o)
+            if "Manual Harness Summary" not in o or not m or int(m.group(3)) != len(part):
+                tail = [l for l in o.strip().split("\n") if l.strip()][-12:]
+                why = "kani-driver was killed (signal / memory limit)" if any("No exit code" in l for l in tail) else " | ".join(tail[-3:])[:300]
+                lost_chunks.append((c0, len(part), why))
+                continue
+            total_reported += int(m.group(3))
+            out += o + "\n"
         open(os.path.join(bdir, uid + ".kani.out"), "w").write(out)
-        if "error: could not compile" in out or "error[E" in out:
-            errs = [l for l in out.split("\n") if l.startswith("error")][:3]
-            res["reason"] = "the harness does not compile against the working tree (lost anchor / changed signature): " + " | ".join(errs)
+        if lost_chunks and total_reported == 0:
+            res["reason"] = "kani did not complete: " + lost_chunks[0][2]
             return res
-        if "Manual Harness Summary" not in out:
-            tail = [l for l in out.strip().split("\n") if l.strip()][-12:]
-            why = "kani-driver was killed (signal / memory limit)" if any("No exit code" in l for l in tail) else " | ".join(tail[-3:])[:300]
-            res["reason"] = "kani did not complete: " + why
-            return res
-        m = re.search(r"Complete - (\d+) successfully verified harnesses, (\d+) failures, (\d+) total", out)
-        if not m or int(m.group(3)) != len(hs):
-            res["reason"] = "kani did not report all harnesses: " + (out.strip().split("\n")[-1] if out.strip() else "no output")
-            return res
+        lost_names = set()
+        for c0, n, why in lost_chunks:
+            for h in hs[c0:c0 + n]:
+                lost_names.add(h["name"])
+        if lost_chunks:
+            res["lost_chunks"] = [{"first": c0, "harnesses": n, "why": why} for c0, n, why in lost_chunks]
         failed = set(re.findall(r"Verification failed for - (\S+)", out))
         # attribute result blocks to harnesses: "Thread k: Checking harness X..." precedes the block of thread k
         cur = {}
@@ -123,7 +139,16 @@ def run_kani_unit(u, repo, bdir, tier):
             if cv:
                 covers.append((cv.group(1), cv.group(2)))
             is_failed = any(f.split("::")[-1] == name for f in failed)
-            if "CBMC timed out" in blk or (is_failed and "VERIFICATION RESULT" not in blk and "CBMC failed" in blk):
+            if name in lost_names:
+                # its chunk did not complete (kani-driver killed): not explored, never counted
+                timed_out.append(name)
+                if u.get("harness_gen"):
+                    ob["status"] = "not-explored"
+                    ob["note"] = "the chunk of this family member did not complete (kani-driver killed)"
+                else:
+                    ob["status"] = "undecided"
+                    res["reason"] += f" {name}: kani-driver was killed;"
+            elif "CBMC timed out" in blk or (is_failed and "VERIFICATION RESULT" not in blk and "CBMC failed" in blk):
                 timed_out.append(name)
                 if u.get("harness_gen"):
                     ob["status"] = "not-explored"
